@@ -110,11 +110,86 @@ def run(tier, seed, replay=None):
     if n_diff and not rep.violations:
         rep.broken_obligation("correspondence C12: decoder models (Socks.v/Http.v/Frames.v over Stream.v) and the implementation differ on %d case(s)" % n_diff, json.dumps(first))
         rep.violations[-1][1]["cases"] = [dict(kind=first["kind"], line=first["line"], meta=first["meta"])]
+    # ---- the same client bytes under many segmentations against the real listeners --------------------------------
+    e2e_stats = {}
+    if not replay:
+        import concurrent.futures
+        import e2e
+        import seg_world as sw
+        import codec_cases as cdc
+        import socket as _socket
+        org = e2e.Server(e2e.echo_handler)
+        uorg = sw.UdpEcho()
+        tgt = cdc.tgt_v4(_socket.inet_aton(e2e.LOOP), uorg.port)
+        dgs = [b"datagram-one:" + bytes(range(40)), b"datagram-two:" + b"z" * 300]
+        enc = run_model(model, ["frame_encode 0 %s %s" % (tgt, d.hex()) for d in dgs])
+        frames = [bytes.fromhex(e[5:]) for e in enc if e.startswith("OK W=")]
+        lp = {"http": e2e.free_port(), "socks": e2e.free_port()}
+        px = e2e.Proxy(driver, [{"name": "http", "bind": "%s:%d" % (e2e.LOOP, lp["http"])}, {"name": "socks", "bind": "%s:%d" % (e2e.LOOP, lp["socks"])}],
+                       [{"name": "direct", "dns": {"servers": "system", "family": "V4Only"}}], [{"target": "direct"}], metrics=False, name="c12-seg")
+        try:
+            if len(frames) != len(dgs):
+                rep.broken_obligation("correspondence C12: the model's frame encoder refuses a plain frame", str(enc)[:300])
+            else:
+                px.start()
+                scs, pay = sw.scenarios(org.port, uorg.port, frames)
+                jobs = []
+                for name, lst, data, border, want in scs:
+                    for cuts in sw.cut_sets(r, len(data), border, tier):
+                        jobs.append((name, lst, data, border, cuts))
+
+                def one(j):
+                    name, lst, data, border, cuts = j
+                    n_before = len(uorg.rx)
+                    want_len = 39 + len(pay) if lst == "http" and b"udp" not in data[:border] else (len(data) + 64)
+                    got = sw.send_segmented(lp[lst], data, cuts, want_len if "udp" not in name else 39 + sum(len(f) for f in frames))
+                    return j, got
+                with concurrent.futures.ThreadPoolExecutor(12) as ex:
+                    outs = list(ex.map(one, jobs))
+                by = {}
+                for (name, lst, data, border, cuts), got in outs:
+                    by.setdefault(name, []).append((cuts, got, data, border))
+                for name, rs in by.items():
+                    ref_cuts, ref = [(c, g) for c, g, _, _ in rs if len(c) == len(rs[0][2]) - 1][0]        # one byte at a time
+                    e2e_stats[name] = len(rs)
+                    dist["e2e:" + name] = len(rs)
+                    for cuts, got, data, border in rs:
+                        if "udp" in name:
+                            dec = run_model(model, ["frame_stream %s" % (got[got.find(b"\r\n\r\n") + 4:].hex() or "-")])[0] if b"\r\n\r\n" in got else "no-head"
+                            back = sorted(x.split("/")[3] for x in dec.split(",") if x.startswith("F/") and len(x.split("/")) > 3)
+                            ok = got.startswith(b"HTTP/1.1 200") and back == sorted(d.hex() for d in dgs)
+                            what = "the two datagrams came back as %d frame(s)" % len(back)
+                        else:
+                            ok = got.endswith(pay) and got == ref
+                            what = "the reply is %r" % got[-60:]
+                        if not ok:
+                            rep.fail("C12: %s, %d client bytes (handshake %d) cut at %s: %s; one byte at a time gives %r" % (name, len(data), border, list(cuts)[:8] or "nowhere (one write)", what, ref[-40:]),
+                                     {"kind": "failing-input", "cases": [], "scenario": name, "cuts": list(cuts), "client_bytes": data.hex(), "reply": got.hex()[:600]})
+                            break
+                # the UDP origin must have seen each datagram once per segmentation of the udp scenario, and nothing else
+                import collections as _c
+                seen = _c.Counter(uorg.rx)
+                n_udp = e2e_stats.get("http CONNECT udp/inline + 2 frames", 0)
+                for d in dgs:
+                    if seen[d] != n_udp and not rep.violations:
+                        rep.fail("C12: http CONNECT udp/inline + 2 frames under %d segmentations: the datagram %r reached the origin %d times" % (n_udp, d[:14], seen[d]),
+                                 {"kind": "failing-input", "cases": [], "scenario": "udp datagram count"})
+                for d in seen:
+                    if d not in dgs:
+                        rep.fail("C12: the UDP origin received a datagram nobody sent: %r" % d[:40], {"kind": "failing-input", "cases": [], "scenario": "stray"})
+                        break
+        finally:
+            px.stop()
+            org.close()
+            uorg.close()
+            import shutil
+            shutil.rmtree(px.dir, ignore_errors=True)
     if broken and not rep.violations:
         rep.broken_obligation(broken[0], broken[1])
     rep.coverage.update({
-        "evaluations": len(cases), "distinct_nontrivial": len(nt),
-        "rule": "valid messages of each stream codec x segmentations (all 2^(n-1) for <=12 bytes; whole, byte-at-a-time, message-boundary +-1 and random cut sets otherwise) x trailing payload, every truncation point, RPFM frame sequences with partial tails; non-trivial = distinct case in which the implementation produced a message or frame",
+        "end_to_end_segmentations": e2e_stats,
+        "evaluations": len(cases) + sum(e2e_stats.values()), "distinct_nontrivial": len(nt),
+        "rule": "valid messages of each stream codec x segmentations (all 2^(n-1) for <=12 bytes; whole, byte-at-a-time, message-boundary +-1 and random cut sets otherwise) x trailing payload, every truncation point, RPFM frame sequences with partial tails; the real listeners (http CONNECT, SOCKS5, SOCKS4, SOCKS4a, CONNECT udp/inline + frames) fed handshake + following bytes in one write, one byte at a time, cut at every position around the handshake border and at random cut sets; non-trivial = distinct case in which the implementation produced a message or frame",
         "input_distribution": dist, "model_impl_disagreements": n_diff,
         "samples": [dict(case=cases[i][1][:160], impl=impl[i][:160], model=mod[i][:160]) for i in range(0, len(cases), max(1, len(cases) // 6))][:6],
     })
